@@ -104,3 +104,24 @@ Definition with_fee {O : Type} (e : env) (base : @oracle O) : @oracle O :=
    state evolves are arbitrary) *)
 Definition fee_exact {O : Type} (e : env) (orc : @oracle O) : Prop :=
   forall st o, fst (ask_fee orc st o) = min_fee_model e st.
+
+(* ------------------------------------------------------------------------------------------- *)
+(* a fully concrete oracle over the size algebra (used by the examples / refutation witnesses and, in the driver,
+   to cross-check the recorded min-ADA and size-test answers): MinOutputAdaCalculator::calculate_ada
+   (utils.rs:767-803: three rounds, then the u64::MAX-wide fallback) with (160 + size) * coins_per_byte *)
+Definition required_coin (e : env) (cpb : N) (x : output) (c : N) : result N :=
+  let* s := checked_add (out_size e (mkOutput (o_addr x) (value_set_coin c (o_amount x)) (o_extra x))) 160 in
+  checked_mul s cpb.
+Fixpoint ada_rounds (n : nat) (e : env) (cpb : N) (x : output) (c : N) : result N :=
+  match n with
+  | O => required_coin e cpb x 18446744073709551615
+  | S n' => let* r := required_coin e cpb x c in if c <? r then ada_rounds n' e cpb x r else Ok r
+  end.
+Definition calculate_ada (e : env) (cpb : N) (x : output) : result N := ada_rounds 3 e cpb x (coin (o_amount x)).
+
+Definition size_oracle (e : env) (cpb max_value : N) : @oracle unit :=
+  mkOracle (fun st o => (min_fee_model e st, o))
+           (fun x o => (calculate_ada e cpb x, o))
+           (fun v o => (max_value <? value_size v, o))
+           (fun st o => (match get_fee_if_set st with Some f => e_max_tx e <? tx_size e st f | None => false end, o))
+           (fun _ _ o => (([], true), o)).
